@@ -99,3 +99,45 @@ func H_C06_lst_import() {
 	vAfter(r)
 	vcover("end")
 }
+
+// H_C06_nav: "driving it with any sequence of calls": n symbolic bytes (binary behind a version marker, param kind
+// as in H_C07_bin; param first=1 restricts the first byte to the three container type codes so that navigation has
+// something to enter) driven by a symbolic navigation program: Next, then K calls each chosen by a solver variable
+// from {Next, StepIn, StepOut}, with every accessor called after each step. Nothing may panic, whatever the calls
+// return; after an error the Reader must stay in error.
+func H_C06_nav() {
+	n := vparam("n", 2)
+	K := vparam("K", 3)
+	b := vnondetBytes(n)
+	if vparam("first", 1) == 1 {
+		vassume(b[0]>>4 >= 0xB && b[0]>>4 <= 0xD)
+	}
+	switch kind := vparam("kind", 0); kind {
+	case 0xB, 0xC:
+		b = vCat(vTLV(byte(kind)<<4, b...), []byte{0x20})
+	case 0xD:
+		b = vCat(vTLV(0xD0, vCat([]byte{0x84}, b)...), []byte{0x20})
+	case 0xE:
+		b = vCat(vTLV(0xE0, vCat([]byte{0x81, 0x84}, b)...), []byte{0x20})
+	}
+	var r Reader
+	if vparam("text", 0) == 1 {
+		r = NewReaderBytes(b)
+	} else {
+		r = NewReaderBytes(vWithBVM(b))
+	}
+	r.Next()
+	vPoke(r)
+	for i := 0; i < K; i++ {
+		switch vnondetInt(0, 2) {
+		case 0:
+			r.Next()
+		case 1:
+			r.StepIn()
+		default:
+			r.StepOut()
+		}
+		vPoke(r)
+	}
+	vcover("end")
+}
